@@ -85,6 +85,7 @@ import json
 import os
 import random
 import tempfile
+import warnings
 
 from ..models import globmatch as G
 
@@ -165,6 +166,8 @@ SIZES = {
     'raw': (10000, 400000),        # x ~5 names
     'wsdoc': (3600, 150000),       # x ~5 names x ~3 paragraphs; paragraphs separated by whitespace-only lines
     'build': (5000, 150000),       # x ~5 query steps x ~6 names x ~3 paragraphs, + one dump-then-parse per query step
+    'nsdoc': (1400, 56000),        # whitespace-only separator runs of 2..4 lines, Copyright(..., strict=False)
+    'long': (900, 36000),          # built paragraphs with LONG pattern lists: x ~20 names x ~3 paragraphs x 2..3 stages
 }
 
 LIT = ['a', 'a', 'a', 'b', 'b', 'c', 'A', '/', '/', '.']
@@ -346,6 +349,276 @@ def gen_wsdoc_case(r, wide):
     return {'kind': 'doc', 'mode': r.choice(WS_MODES), 'paras': paras, 'seps': seps, 'names': gen_names(r, lists, 5)}
 
 
+def gen_nsdoc_case(r, wide):
+    """A document with whitespace-only separator lines (as gen_wsdoc_case) handed to Copyright(..., strict=False); the
+    gaps between paragraphs are made of SEVERAL separator lines more often (NS_RUNS: 2..4 lines, empty line followed by
+    a blank / tab line and vice versa)."""
+    case = gen_wsdoc_case(r, wide)
+    n = len(case['paras'])
+    seps = [([('' if ch == 'e' else r.choice(NS_LINES)) for ch in r.choice(NS_RUNS)] if r.random() < 0.75 else [''])
+            for _ in range(n)]
+    if not any(is_ws_line(l) for run in seps for l in run):
+        seps[r.randrange(n)] = [('' if ch == 'e' else r.choice(NS_LINES)) for ch in r.choice(NS_RUNS[:6])]
+    case['seps'] = seps
+    case['strict'] = False
+    return case
+
+
+# whitespace-only lines / separator runs of the NON-STRICT class: the single blank and the single tab dominate
+NS_LINES = [' ', ' ', ' ', '\t', '\t', '\t', '  ', ' \t', '\t ', '  \t']
+NS_RUNS = ['ew', 'we', 'ew', 'we', 'ewe', 'wew', 'eew', 'wee', 'eww', 'wwe', 'ewew', 'wewe', 'eewe', 'w', 'wv']
+
+
+# ---------------------------------------------------------------------------
+# LONG pattern lists in paragraphs BUILT through the API (kind 'long')
+
+LONG_WORDS = ['fix', 'foo', 'bar', 'baz', 'build', 'typo', 'man', 'page', 'CVE', '2024', '1234', '0001', 'upstream', 'hurd',
+              'kfreebsd', 'ftbfs', 'gcc', '13', 'no', 'rpath', 'use', 'system', 'libs', 'spelling', 'reproducible', 'cross',
+              'arm64', 'x32', 'test', 'suite', 'timeout', 'py3', 'a', 'b', 'Z', 'non', 'free', 'drop', 'embedded', 'copy']
+LONG_DIRS = ['debian/patches/', 'debian/patches/', 'debian/patches/', 'debian/patches/debian-changes/', 'src/third-party/',
+             'vendor/github.com/foo-bar/baz-qux/', 'lib/python3/dist-packages/', 'po/', 'docs/user-guide/', '', '']
+LONG_EXT = ['.patch', '.patch', '.patch', '.diff', '.c', '.h', '.py', '.po', '.rst', '', '.in']
+LONG_WILD = ['*', '*', '?', '??', '*.', '-*', '?-', '*-*', '/*/', '*/']
+LONG_ESC = ['\\*', '\\?', '\\\\']
+LONG_ODD = [',', ';', '+', '_', '.', '~', '=', ':', '--', '-.-', '(1)', '[x]']
+# text widths a re-flowing implementation is likely to use (with / without the 'Files: ' prefix in front)
+LONG_WIDTHS = (70, 72, 75, 76, 78, 79, 80)
+
+
+def gen_long_pattern(r, uid, style=None):
+    """One realistic pattern; every pattern of a case carries a distinct number so that the literal names are unique."""
+    uid[0] += 1
+    n = uid[0]
+    style = style or r.choice(('hyph', 'hyph', 'hyph', 'hyph', 'wild', 'wild', 'esc', 'odd', 'plain'))
+    d = r.choice(LONG_DIRS)
+    words = [r.choice(LONG_WORDS) for _ in range(r.choice((2, 3, 3, 4, 5, 6)))]
+    if style == 'hyph':          # quilt patch names and the like: literal, several hyphens
+        words.insert(r.randrange(len(words) + 1), str(n))
+        return d + '-'.join(words) + r.choice(LONG_EXT)
+    if style == 'wild':          # hyphens next to wildcards
+        words.insert(r.randrange(len(words) + 1), str(n))
+        k = r.randrange(len(words) + 1)
+        words.insert(k, r.choice(LONG_WILD))
+        return d + '-'.join(words) + r.choice(LONG_EXT + ['*', '.?', '-*'])
+    if style == 'esc':
+        words.insert(r.randrange(len(words) + 1), str(n))
+        words.insert(r.randrange(len(words) + 1), r.choice(LONG_ESC) + r.choice(LONG_WORDS))
+        return d + '-'.join(words) + r.choice(LONG_EXT)
+    if style == 'odd':
+        words.insert(r.randrange(len(words) + 1), str(n))
+        out = words[0]
+        for w in words[1:]:
+            out += r.choice(LONG_ODD + ['-', '-']) + w
+        return d + out + r.choice(LONG_EXT)
+    # plain: no hyphen at all
+    return (d.replace('-', '_') + '_'.join(words) + str(n) + r.choice(LONG_EXT)).replace('-', '_')
+
+
+def gen_huge_pattern(r, uid, length):
+    """A SINGLE pattern of about `length` (100..600) characters."""
+    uid[0] += 1
+    style = r.choice(('path-hyph', 'path-hyph', 'path-wild', 'word', 'word-hyph', 'word-wild'))
+    if style.startswith('path'):
+        out = 'deep%d' % uid[0]
+        while len(out) < length:
+            comp = '-'.join(r.choice(LONG_WORDS) for _ in range(r.choice((1, 2, 3, 4))))
+            if style == 'path-wild' and r.random() < 0.2:
+                comp += r.choice(('*', '?', '-*', '-?'))
+            out += '/' + comp
+        return out + r.choice(LONG_EXT)
+    # one unbroken "word": nothing but the hard width limit could make an implementation cut it
+    out = 'w%d' % uid[0]
+    while len(out) < length:
+        out += r.choice(LONG_WORDS)
+        k = r.random()
+        if style == 'word-hyph' and k < 0.25:
+            out += '-'
+        elif style == 'word-wild' and k < 0.08:
+            out += r.choice(('*', '?'))
+    return out
+
+
+def gen_long_list(r, uid, wide):
+    """(patterns, shape).  Joined length far beyond one text line for 'many' / 'huge' / 'mixed'; 'boundary' lists have a
+    joined length of exactly 72..88 characters (around the usual wrapping widths)."""
+    shape = r.choice(('many', 'many', 'many', 'many', 'huge', 'mixed', 'boundary'))
+    if shape == 'boundary':
+        target = r.choice((72, 73, 75, 76, 77, 78, 79, 80, 81, 82, 86, 88))
+        pats = [gen_long_pattern(r, uid)]
+        while len(' '.join(pats)) < target - 30:
+            pats.append(gen_long_pattern(r, uid))
+        rest = target - len(' '.join(pats)) - 1
+        if rest >= 8:
+            uid[0] += 1
+            tail = 'debian/t-%d-' % uid[0]
+            if len(tail) < rest:
+                pats.append(tail + 'x' * (rest - len(tail)))
+        return pats, shape
+    target = r.choice((100, 120, 160, 200, 240, 300, 360, 450, 600)) if not wide else r.randrange(100, 620)
+    if shape == 'huge':
+        pats = [gen_huge_pattern(r, uid, target)]
+        for _ in range(r.choice((0, 0, 1, 2))):
+            pats.insert(r.randrange(len(pats) + 1), gen_long_pattern(r, uid))
+        return pats, shape
+    pats = []
+    if shape == 'mixed':
+        pats.append(gen_huge_pattern(r, uid, r.choice((100, 130, 180, 260))))
+    style = r.choice((None, None, 'hyph', 'hyph', 'wild'))       # None: styles mixed within the list
+    while len(' '.join(pats)) < target:
+        pats.insert(r.randrange(len(pats) + 1), gen_long_pattern(r, uid, style))
+    return pats, shape
+
+
+def _hyphen_splits(pat):
+    """Positions directly behind a '-' that has something on both sides."""
+    return [i + 1 for i, ch in enumerate(pat) if ch == '-' and 0 < i < len(pat) - 1]
+
+
+def _literal_name(r, pat):
+    """A literal expansion of the pattern text (None if the text is not a legal glob)."""
+    try:
+        return G.expand(G.parse(pat), r, LIT)
+    except G.IllegalEscape:
+        return None
+
+
+def long_names(r, lists, budget):
+    """Names named by the patterns of LONG lists: the whole patterns (literal expansions - for a wildcard-free pattern the
+    name equal to the pattern itself), the pieces a re-flowing implementation would cut them into (at a hyphen; at a
+    column 70..80 of the joined text / of the single pattern), neighbours glued together, and single-character edits.
+    Returns [(name, class), ...]."""
+    out, seen = [], set()
+
+    def add(name, cls):
+        if name is not None and name not in seen:
+            seen.add(name)
+            out.append((name, cls))
+
+    order = list(range(len(lists)))
+    r.shuffle(order)
+    per = max(3, budget // max(1, len(lists)))
+    for li in order:
+        pats = lists[li]
+        # patterns that straddle a wrapping column of the joined text come first, then hyphenated ones, then the rest
+        offs, pos = [], 0
+        for p in pats:
+            offs.append((pos, pos + len(p)))
+            pos += len(p) + 1
+        straddle = [k for k, (a, b) in enumerate(offs)
+                    if any((a + pre) // w != (b + pre) // w for w in LONG_WIDTHS for pre in (0, 7))]
+        rest = [k for k in range(len(pats)) if k not in straddle]
+        r.shuffle(straddle)
+        r.shuffle(rest)
+        rest.sort(key=lambda k: '-' not in pats[k])
+        chosen = (straddle + rest)[:per]
+        for k in chosen:
+            p = pats[k]
+            whole = _literal_name(r, p)
+            cls = 'whole-hyphenated-pattern' if '-' in p else 'whole-pattern'
+            if len(p) >= 100:
+                cls = 'whole-single-long-pattern'
+            add(whole, cls)
+        for k in chosen[:max(2, per // 2)]:
+            p = pats[k]
+            cuts = _hyphen_splits(p)
+            if cuts:
+                c = r.choice(cuts)
+                add(_literal_name(r, p[:c]), 'hyphen-fragment')
+                add(_literal_name(r, p[c:]), 'hyphen-fragment')
+                if r.random() < 0.3:
+                    add(_literal_name(r, p[:c - 1]), 'hyphen-fragment')
+            if len(p) > 90:
+                c = r.choice(LONG_WIDTHS) - r.choice((0, 0, 7, 1))
+                add(_literal_name(r, p[:c]), 'width-fragment')
+                add(_literal_name(r, p[c:]), 'width-fragment')
+        if len(pats) >= 2:
+            k = r.randrange(len(pats) - 1)
+            a, b = _literal_name(r, pats[k]), _literal_name(r, pats[k + 1])
+            if a is not None and b is not None:
+                add(a + b, 'glued-neighbours')
+                if r.random() < 0.5:
+                    add(a + ' ' + b, 'glued-neighbours')
+        if chosen:
+            whole = _literal_name(r, pats[chosen[0]])
+            if whole:
+                add(edit(r, whole), 'edited')
+    return out
+
+
+def mutate_tail(r, pats):
+    """The same list with one character changed in a pattern that lies BEHIND the first text line (joined offset >= 90 if
+    there is one, else the last pattern); same joined length.  Returns (new list, index changed)."""
+    pos, late = 0, []
+    for k, p in enumerate(pats):
+        if pos >= 90 or pos + len(p) >= 120:
+            late.append(k)
+        pos += len(p) + 1
+    k = r.choice(late) if late else len(pats) - 1
+    p = pats[k]
+    idx = [i for i in range(len(p) // 2, len(p)) if p[i] not in '\\*?' and (i == 0 or p[i - 1] != '\\')]
+    if not idx:
+        return None, None
+    i = r.choice(idx)
+    c = r.choice([x for x in 'qvxk' if x != p[i]])
+    out = list(pats)
+    out[k] = p[:i] + c + p[i + 1:]
+    if out[k] in pats:
+        return None, None
+    return out, k
+
+
+def gen_long_case(r, wide):
+    nf = r.choice((1, 2, 2, 3)) if not wide else r.choice((1, 2, 2, 3, 3, 4))
+    uid = [0]
+    paras, lists, shapes = [], [], []
+    if r.random() < 0.3:
+        paras.append({'F': [r.choice(('*', '*', 'debian/*', 'debian/patches/*'))], 'via': 'create'})
+        lists.append(paras[-1]['F'])
+    for j in range(nf):
+        if r.random() < 0.25:
+            paras.append({'L': 1})
+        pats, shape = gen_long_list(r, uid, wide)
+        long_before = [l for l in lists if len(' '.join(l)) >= 60]
+        if long_before and r.random() < 0.6:
+            # overlap: a later paragraph names some of an earlier paragraph's patterns again (the LAST one must win)
+            prev = r.choice(long_before)
+            for p in r.sample(prev, min(len(prev), r.choice((1, 1, 2, 3)))):
+                if p not in pats and shape != 'boundary':
+                    pats.insert(r.randrange(len(pats) + 1), p)
+        via = r.choice(('create', 'create', 'assign', 'assign-in-doc'))
+        ent = {'F': pats, 'via': via}
+        if via != 'create':
+            ent['first'] = r.choice((['placeholder'], ['*'], pats[:1], [gen_long_pattern(r, uid)]))
+        paras.append(ent)
+        lists.append(pats)
+        shapes.append(shape)
+    if r.random() < 0.04:
+        # an illegal escape somewhere in a long list
+        k = r.randrange(len(lists))
+        uid[0] += 1
+        lists[k].insert(r.randrange(len(lists[k]) + 1), 'debian/patches/fix-%d-\\d-foo.patch' % uid[0])
+    if r.random() < 0.3:
+        paras.append({'L': 1})
+    named = long_names(r, [l for l in lists if G.GlobList(l).legal], 12 if not wide else 16)
+    case = {'kind': 'long', 'paras': paras, 'names': [n for n, _ in named], 'ncls': [c for _, c in named],
+            'dump': r.choice(('return', 'file')),
+            'reparse': r.choice(('parse', 'parse', 'parse-file', 'parse-noeol', 'parse-bytes', 'parse-bytesio', 'parse-disk'))}
+    if r.random() < 0.3:
+        case['strict'] = False
+    if r.random() < 0.45:
+        fidx = [i for i, p in enumerate(paras) if 'F' in p and len(' '.join(p['F'])) >= 60]
+        if fidx:
+            i = r.choice(fidx)
+            newp, k = mutate_tail(r, paras[i]['F'])
+            if newp is not None and G.GlobList(paras[i]['F']).legal:
+                case['reassign'] = [sum(1 for p in paras[:i] if 'F' in p), newp]
+                for nm in (_literal_name(r, paras[i]['F'][k]), _literal_name(r, newp[k])):
+                    if nm is not None and nm not in case['names']:
+                        case['names'].append(nm)
+                        case['ncls'].append('changed-by-reassignment')
+    return case
+
+
 # ---------------------------------------------------------------------------
 # build histories (kind 'build')
 
@@ -442,6 +715,8 @@ def gen_build_case(r, wide):
             start['seps'] = gen_seps(rs, len(paras), 0.6)
             if rs.random() < 0.5:
                 start['mode'] = rs.choice(WS_MODES)
+            if rs.random() < 0.35:
+                start['strict'] = False          # Copyright(..., strict=False)
         return start
 
     start = {'mode': 'empty', 'paras': []}
@@ -614,6 +889,37 @@ def cases(ctx):
     r = ctx.rng('wsdoc')
     for i in range(ctx.size(*SIZES['wsdoc'])):
         yield gen_wsdoc_case(r, wide)
+    # -- the same class handed to Copyright(..., strict=False); gaps of several separator lines
+    if ctx.shard == 0:
+        for a, b in (('', ' '), (' ', ''), ('', '\t'), ('\t', ''), (' ', '\t')):
+            for mode in ('parse', 'parse-file', 'parse-noeol', 'parse-bytes', 'parse-disk'):
+                yield {'kind': 'doc', 'mode': mode, 'strict': False, 'seps': [[a, b], [a, b], [b, a], [a, b, a], [a, b]],
+                       'paras': [{'F': ['*'], 'sep': 0, 'fo': 0}, {'F': ['debian/*', 'src/a'], 'sep': 2, 'fo': 1}, {'L': 1},
+                                 {'F': ['debian/rules'], 'sep': 0, 'fo': 2}, {'F': ['*.c'], 'sep': 1, 'fo': 1}],
+                       'names': ['debian/rules', 'debian/x', 'src/a', 'a.c', 'debian/a.c', 'README', 'src/a.in']}
+                yield {'kind': 'doc', 'mode': mode, 'strict': False, 'seps': [[b, a], [a, b], [b], [a, a, b]],
+                       'paras': [{'L': 1}, {'F': ['a*'], 'sep': 0, 'fo': 1}, {'F': ['a?', 'b'], 'sep': 2, 'fo': 1}, {'L': 1}],
+                       'names': ['ab', 'abc', 'b', 'a', 'c']}
+    r = ctx.rng('nsdoc')
+    for i in range(ctx.size(*SIZES['nsdoc'])):
+        yield gen_nsdoc_case(r, wide)
+    # -- paragraphs BUILT through the API with LONG pattern lists (create / files assignment), dump-then-parse
+    if ctx.shard == 0:
+        quilt = ['debian/patches/fix-foo-bar-baz-%d.patch' % k for k in range(1, 13)]
+        yield {'kind': 'long', 'dump': 'return', 'reparse': 'parse',
+               'paras': [{'F': ['*'], 'via': 'create'}, {'F': quilt[:9] + ['src/*/lib-x/*.c'], 'via': 'create'}, {'L': 1},
+                         {'F': quilt[6:] + ['po/??-x.po'], 'via': 'assign', 'first': ['placeholder']}],
+               'names': quilt + ['debian/patches/fix-', 'foo-bar-baz-7.patch', 'baz-7.patch', 'src/a/lib-x/b.c', 'lib-x/b.c',
+                                 'po/de-x.po', 'x.po', 'README', quilt[0] + quilt[1]],
+               'reassign': [2, quilt[6:11] + ['debian/patches/fix-foo-bar-baz-99.patch', 'po/??-x.po']]}
+        yield {'kind': 'long', 'dump': 'file', 'reparse': 'parse-file', 'strict': False,
+               'paras': [{'F': ['w' + 'abcdefghij' * 30, 'deep/' + '/'.join(['very-long-component'] * 12) + '/*.c'],
+                          'via': 'assign-in-doc', 'first': ['*']}],
+               'names': ['w' + 'abcdefghij' * 30, ('w' + 'abcdefghij' * 30)[:79], ('w' + 'abcdefghij' * 30)[79:],
+                         'deep/' + '/'.join(['very-long-component'] * 12) + '/x.c', 'deep/very-', 'long-component/x.c', 'x']}
+    r = ctx.rng('long')
+    for i in range(ctx.size(*SIZES['long'])):
+        yield gen_long_case(r, wide)
     # -- build histories through the public API (empty / parsed start, adds, re-assignments, queries, dump-then-parse)
     if ctx.shard == 0:
         yield {'kind': 'build', 'start': {'mode': 'empty', 'paras': []},
@@ -648,6 +954,8 @@ def oracle(ctx, gl, name):
     """Expected answer for a legal list; also applies the non-triviality rule
     and cross-checks the two model algorithms.  Returns None if the model is
     inconsistent with itself (recorded as inconclusive, nothing is accused)."""
+    if getattr(gl, 'cheap', False):
+        return oracle_long(ctx, gl, name)
     want = gl.matches(name)
     d = gl.distance(name)
     if (d == 0) != want:
@@ -657,6 +965,39 @@ def oracle(ctx, gl, name):
         ctx.nontrivial(case={'pats': gl.patterns, 'name': name})
         ctx.count('nontrivial:hit' if want else 'nontrivial:near-miss')
     return want
+
+
+def oracle_long(ctx, gl, name):
+    """The oracle for LONG pattern lists (hundreds of characters): the position-set matcher, cross-checked on EVERY
+    evaluation against the single-backtrack-point matcher and, where it is affordable (name length x total pattern
+    length <= 5000, and every 16th evaluation up to 40000), against the edit-distance DP as well.  Answers are memoised per
+    (list object, name): the stages of one case (built / re-assigned / re-parsed) ask the same questions again."""
+    memo = gl.__dict__.setdefault('_c16_memo', {})
+    if name in memo:
+        return memo[name]
+    want = gl.matches(name)
+    other = gl.matches_greedy(name)
+    ok = other == want
+    _LONG_SEQ[0] += 1
+    cost = len(name) * gl.__dict__.setdefault('_c16_size', sum(len(t) for t in gl.toks))
+    if ok and (cost <= 5000 or (_LONG_SEQ[0] % 16 == 0 and cost <= 40000)):
+        ctx.count('long:oracle-cross-checked-with-distance-dp')
+        ok = (gl.distance(name) == 0) == want
+    if not ok:
+        ctx.inconclusive.append('reference model inconsistent on %r / %r: position sets say %r, backtrack-point matcher %r'
+                                % (gl.patterns, name, want, other))
+        memo[name] = None
+        return None
+    if len(gl.patterns) >= 2 or gl.wild:
+        # names of this class are derived from the patterns themselves (whole pattern, its pieces, glued neighbours, one edit)
+        ctx.nontrivial(case={'pats': gl.patterns, 'name': name})
+        ctx.count('nontrivial:hit' if want else 'nontrivial:near-miss')
+        ctx.count('long:nontrivial')
+    memo[name] = want
+    return want
+
+
+_LONG_SEQ = [0]
 
 
 def anchoring_confirmed(mk, gl, name):
@@ -909,27 +1250,38 @@ def _scratch_path(ctx):
     return os.path.join(d, 'copyright')
 
 
-def parse_doc(ctx, lines, mode):
-    """Copyright() over the document given as line bodies, handed over as the requested kind of source."""
+def parse_doc(ctx, lines, mode, strict=True):
+    """Copyright() over the document given as line bodies, handed over as the requested kind of source.  strict=False
+    => Copyright(..., strict=False); warnings it emits are counted (ns:note:warning:*), never judged."""
     from debian import copyright as cp
+    if strict:
+        mk = cp.Copyright
+    else:
+        def mk(src):
+            with warnings.catch_warnings(record=True) as caught:
+                warnings.simplefilter('always')
+                c = cp.Copyright(src, strict=False)
+            for w in caught:
+                ctx.count('ns:note:warning:%s' % w.category.__name__)
+            return c
     if mode == 'parse':
-        return cp.Copyright([l + '\n' for l in lines])
+        return mk([l + '\n' for l in lines])
     if mode == 'parse-noeol':
-        return cp.Copyright(list(lines))
+        return mk(list(lines))
     text = ''.join(l + '\n' for l in lines)
     if mode == 'parse-file':
-        return cp.Copyright(io.StringIO(text))
+        return mk(io.StringIO(text))
     if mode == 'parse-bytes':
-        return cp.Copyright([(l + '\n').encode('utf-8') for l in lines])
+        return mk([(l + '\n').encode('utf-8') for l in lines])
     if mode == 'parse-bytesio':
-        return cp.Copyright(io.BytesIO(text.encode('utf-8')))
+        return mk(io.BytesIO(text.encode('utf-8')))
     if mode in ('parse-disk', 'parse-disk-rb'):
         path = _scratch_path(ctx)
         with open(path, 'wb') as f:
             f.write(text.encode('utf-8'))
         f = open(path, 'rb') if mode == 'parse-disk-rb' else open(path, 'r', encoding='utf-8', newline='')
         try:
-            return cp.Copyright(f)
+            return mk(f)
         finally:
             f.close()
     raise ValueError('unknown document source %r' % (mode,))
@@ -949,7 +1301,7 @@ def build_doc(ctx, case):
             else:
                 c.add_license_paragraph(cp.LicenseParagraph.create(cp.License('L%d' % i, 'text')))
         return c
-    return parse_doc(ctx, doc_lines(paras, case.get('seps')), mode)
+    return parse_doc(ctx, doc_lines(paras, case.get('seps')), mode, case.get('strict', True))
 
 
 def _files_view(c):
@@ -993,18 +1345,21 @@ def ws_count_document(ctx, paras, seps, mode, prefix='ws'):
                 ctx.count('%s:whitespace-line-directly-after-files-value' % prefix)
 
 
-def ws_control(ctx, paras, seps, mode):
+def ws_control(ctx, paras, seps, mode, strict=True):
     """Differential control for a disagreement on a document with whitespace-only separator lines: the SAME document
     with every such line replaced by an empty line, through the same kind of source.  Returns (files view, ids of all
     non-header paragraphs), or the exception it raised."""
     try:
-        c = parse_doc(ctx, doc_lines(paras, seps, plain=True), mode)
+        c = parse_doc(ctx, doc_lines(paras, seps, plain=True), mode, strict)
         return _files_view(c), _para_ids(c.all_paragraphs())
     except Exception as e:
         return e
 
 
-def ws_judge_parsed(ctx, c, paras, seps, mode, small, prefix='ws'):
+NS_SUFFIX = '/parsed-with-strict=False'
+
+
+def ws_judge_parsed(ctx, c, paras, seps, mode, small, prefix='ws', strict=True):
     """all_files_paragraphs() of a parsed document with whitespace-only separators against what was written.  True =>
     agrees (go on with the queries); False => recorded (violation if the control document with empty separator lines
     does show what was written, else harness sanity => inconclusive)."""
@@ -1023,7 +1378,7 @@ def ws_judge_parsed(ctx, c, paras, seps, mode, small, prefix='ws'):
             if len(ctx.extra['ws_notes']) < 3:
                 ctx.extra['ws_notes'].append('written %r, all_paragraphs() shows %r' % (_written_ids(paras), full))
         return True
-    ctl = ws_control(ctx, paras, seps, mode)
+    ctl = ws_control(ctx, paras, seps, mode, strict)
     if isinstance(ctl, Exception) or ctl[0] != want:
         ctx.inconclusive.append('document did not parse to the pattern lists written, with whitespace-only AND with '
                                 'empty separator lines: wrote %r, got %r / %r' % (want, got, ctl))
@@ -1036,20 +1391,23 @@ def ws_judge_parsed(ctx, c, paras, seps, mode, small, prefix='ws'):
         key = 'extra-files-paragraph-at-whitespace-only-separator'
     else:
         key = 'files-paragraphs-differ-at-whitespace-only-separator'
-    ctx.violation(key, 'all_files_paragraphs() of the parsed document (source %s, separator runs %r) shows %r; written were %r, '
-                  'and the same document with empty separator lines shows exactly those' % (mode, seps, got, want), small)
+    ctx.violation(key + ('' if strict else NS_SUFFIX),
+                  'all_files_paragraphs() of the parsed document (source %s%s, separator runs %r) shows %r; written were %r, '
+                  'and the same document with empty separator lines shows exactly those'
+                  % (mode, '' if strict else ', Copyright(..., strict=False)', seps, got, want), small)
     return False
 
 
-def ws_rejected(ctx, exc, paras, seps, mode, small):
+def ws_rejected(ctx, exc, paras, seps, mode, small, strict=True):
     """Copyright() raised on a document with whitespace-only separators.  True => recorded as a violation (the control
     document parses to what was written); False => not a separator matter, the caller re-raises."""
-    ctl = ws_control(ctx, paras, seps, mode)
+    ctl = ws_control(ctx, paras, seps, mode, strict)
     if isinstance(ctl, Exception) or ctl[0] != _written_files_view(paras):
         return False
-    ctx.violation('document-with-whitespace-only-separators-rejected', 'Copyright() over source %s with separator runs %r raised '
+    ctx.violation('document-with-whitespace-only-separators-rejected' + ('' if strict else NS_SUFFIX),
+                  'Copyright(%s) over source %s with separator runs %r raised '
                   '%s: %s; the same document with empty separator lines parses to the Files paragraphs written'
-                  % (mode, seps, type(exc).__name__, exc), small)
+                  % ('' if strict else '..., strict=False', mode, seps, type(exc).__name__, exc), small)
     return True
 
 
@@ -1199,25 +1557,29 @@ def run_wsdoc(ctx, case):
     every other parsed document - all_files_paragraphs() against what was written (M.ws.order), find_files_paragraph
     against the last-match rule (M.ws.find), every paragraph's matches() against the glob model (M.match)."""
     paras, seps, mode, names = case['paras'], case['seps'], case['mode'], case['names']
+    strict = case.get('strict', True)
+    pre = 'ws' if strict else 'ws-ns'          # counters / monitors of the non-strict class are kept apart
     small = dict(case)
     small['names'] = names[:1]
-    ws_count_document(ctx, paras, seps, mode)
+    ws_count_document(ctx, paras, seps, mode, pre)
+    if not strict:
+        ctx.count('ws-ns:longest-separator-run:%d-lines' % min(4, max(len(run) for run in seps)))
     try:
         c = build_doc(ctx, case)
     except Exception as e:
-        ctx.mon('M.ws.order')
-        if ws_rejected(ctx, e, paras, seps, mode, small):
+        ctx.mon('M.%s.order' % pre)
+        if ws_rejected(ctx, e, paras, seps, mode, small, strict):
             return
         raise
-    if not ws_judge_parsed(ctx, c, paras, seps, mode, small):
+    if not ws_judge_parsed(ctx, c, paras, seps, mode, small, pre, strict):
         return
     want_lists = [G.GlobList(p['F']) for p in paras if 'F' in p]
     fps = list(c.all_files_paragraphs())
-    ctx.count('ws:%d-files-paragraphs' % min(len(want_lists), 7))
+    ctx.count('%s:%d-files-paragraphs' % (pre, min(len(want_lists), 7)))
     ctx.evaluations += max(0, len(names) - 1)
     before = ctx.counters['op:matches']
-    doc_queries(ctx, case, c, fps, want_lists, names, {}, '-ws', mon='M.ws.find', cnt='ws-find')
-    ctx.count('ws:matches-observed', ctx.counters['op:matches'] - before)
+    doc_queries(ctx, case, c, fps, want_lists, names, {}, '-' + pre, mon='M.%s.find' % pre, cnt='%s-find' % pre)
+    ctx.count('%s:matches-observed' % pre, ctx.counters['op:matches'] - before)
     if any(not gl.legal for gl in want_lists):
         return
     # which Files paragraphs stand directly in front of / behind a run with a whitespace-only line
@@ -1237,11 +1599,11 @@ def run_wsdoc(ctx, case):
     for name in names:
         hits = [j for j, gl in enumerate(want_lists) if gl.matches(name)]
         if hits and hits[-1] in next_to_ws:
-            ctx.count('ws-find:resolves-to-paragraph-next-to-whitespace-only-separator')
+            ctx.count('%s-find:resolves-to-paragraph-next-to-whitespace-only-separator' % pre)
         if hits and any(j in next_to_ws for j in hits[:-1]):
-            ctx.count('ws-find:shadowed-match-next-to-whitespace-only-separator')
+            ctx.count('%s-find:shadowed-match-next-to-whitespace-only-separator' % pre)
         if not hits and next_to_ws:
-            ctx.count('ws-find:none-matches-in-document-with-whitespace-only-separator')
+            ctx.count('%s-find:none-matches-in-document-with-whitespace-only-separator' % pre)
 
 
 def _para_ids(paragraphs):
@@ -1302,19 +1664,22 @@ def run_build(ctx, case):
         c = cp.Copyright()
     else:
         seps = start.get('seps')
+        strict = start.get('strict', True)
         ws = bool(seps) and any(is_ws_line(l) for run in seps for l in run)
         small0 = {'kind': 'build', 'start': start, 'ops': [['q', 7]], 'names': names[:1]}
         if ws:
             ws_count_document(ctx, start['paras'], seps, start['mode'], 'ws-build')
+            if not strict:
+                ctx.count('ws-build:documents-parsed-with-strict=False')
         try:
-            c = parse_doc(ctx, doc_lines(start['paras'], seps), start['mode'])
+            c = parse_doc(ctx, doc_lines(start['paras'], seps), start['mode'], strict)
         except Exception as e:
             if ws:
                 ctx.mon('M.ws-build.order')
-                if ws_rejected(ctx, e, start['paras'], seps, start['mode'], small0):
+                if ws_rejected(ctx, e, start['paras'], seps, start['mode'], small0, strict):
                     return
             raise
-        if ws and not ws_judge_parsed(ctx, c, start['paras'], seps, start['mode'], small0, 'ws-build'):
+        if ws and not ws_judge_parsed(ctx, c, start['paras'], seps, start['mode'], small0, 'ws-build', strict):
             return
         live = [p for p in c.all_paragraphs() if not isinstance(p, cp.Header)]
         want = _written_ids(start['paras'])
@@ -1513,6 +1878,208 @@ def run_build(ctx, case):
             raise ValueError('unknown build op %r' % (op,))
 
 
+# ---------------------------------------------------------------------------
+# LONG pattern lists in paragraphs built through the API
+
+def _viol_mark(ctx):
+    return (len(ctx.violations), dict(ctx.viol_count))
+
+
+def _viol_retag(ctx, mark, suffix):
+    """Append `suffix` to the mechanism key of every violation recorded since `mark`; returns how many there were."""
+    nviol, counts = mark
+    moved = 0
+    for v in ctx.violations[nviol:]:
+        if not v['key'].endswith(suffix):
+            v['key'] += suffix
+    for k, n in list(ctx.viol_count.items()):
+        d = n - counts.get(k, 0)
+        if d > 0:
+            moved += d
+            if not k.endswith(suffix):
+                ctx.viol_count[k] -= d
+                if ctx.viol_count[k] <= 0:
+                    del ctx.viol_count[k]
+                ctx.viol_count[k + suffix] += d
+    return moved
+
+
+def _len_class(n):
+    return '<72' if n < 72 else ('72-88' if n <= 88 else ('89-199' if n < 200 else ('200-399' if n < 400 else '400+')))
+
+
+def long_files_check(ctx, label, fps, lists, rr):
+    """`files` of every paragraph against the list it was given.  A difference is NOT a verdict by itself (the statement
+    is about matches / find_files_paragraph): it contributes the names that tell the two lists apart, which are then judged
+    like every other name, and it goes into the mechanism key.  Returns (differs, extra names, description)."""
+    differs, extra, what = False, [], None
+    for k, (p, gl) in enumerate(zip(fps, lists)):
+        ctx.mon('M.long.files')
+        try:
+            got = tuple(p.files)
+        except Exception as e:
+            got = '%s: %s' % (type(e).__name__, e)
+        if got == tuple(gl.patterns):
+            continue
+        differs = True
+        if what is None:
+            what = 'Files paragraph #%d (%s): files is %r, the list given was %r' % (k, label, got, gl.patterns)
+        if isinstance(got, tuple):
+            a, b = set(gl.patterns), set(got)
+            for pat in sorted(b - a)[:8] + sorted(a - b)[:8]:
+                nm = _literal_name(rr, pat)
+                if nm is not None and nm not in extra:
+                    extra.append(nm)
+    return differs, extra, what
+
+
+def run_long(ctx, case):
+    """Paragraphs BUILT through the API with long pattern lists.  Stages: built -> [one list re-assigned] -> dump() and
+    re-parse; at every stage `files` against the list given (M.long.files), every paragraph's matches() against the glob
+    model (M.match) and find_files_paragraph against the last-match rule (M.long.find / M.long.reparse.find)."""
+    from debian import copyright as cp
+    paras = case['paras']
+    names = list(case['names'])
+    ncls = list(case.get('ncls') or [])
+    strict = case.get('strict', True)
+    rr = random.Random('long/%d/%d' % (len(paras), len(names)))
+    ctx.count('long:documents')
+    probe = names[0] if names else 'x'
+    c = cp.Copyright()
+    tags, fps, lists, earlier = [], [], [], {}
+    for i, p in enumerate(paras):
+        if 'F' not in p:
+            c.add_license_paragraph(cp.LicenseParagraph.create(cp.License('L%d' % i, 'text')))
+            continue
+        pats, via, tag = p['F'], p.get('via', 'create'), 'c%d' % i
+        if via == 'create':
+            para = make_para(pats, tag)
+            c.add_files_paragraph(para)
+        else:
+            para = make_para(p['first'], tag)
+            if via == 'assign-in-doc':
+                c.add_files_paragraph(para)
+            call_matches(para, probe)            # not judged: the paragraph has answered for its first list before
+            para.files = list(pats)
+            ctx.count('op:files-assign')
+            if via != 'assign-in-doc':
+                c.add_files_paragraph(para)
+            earlier[len(fps)] = [G.GlobList(p['first'])]
+        gl = G.GlobList(pats)
+        gl.cheap = True
+        tags.append(tag)
+        fps.append(para)
+        lists.append(gl)
+        joined = len(' '.join(pats))
+        ctx.count('long:paragraph-via:%s' % via)
+        ctx.count('long:joined-length:%s' % _len_class(joined))
+        if joined >= 89:
+            ctx.count('long:lists-beyond-one-text-line')
+        if any(len(x) >= 100 for x in pats):
+            ctx.count('long:list-with-single-pattern-of-100+-characters')
+        ctx.count('long:patterns', len(pats))
+        ctx.count('long:patterns-with-hyphen', sum(1 for x in pats if '-' in x))
+        ctx.count('long:patterns-with-wildcard', sum(1 for x in pats if '*' in x or '?' in x))
+        if not gl.legal:
+            ctx.count('long:list-with-illegal-escape')
+    for cls in ncls:
+        ctx.count('long:name:%s' % cls)
+
+    def small_of(name):
+        small = dict((k, v) for k, v in case.items() if k != 'ncls')
+        small['names'] = [name]
+        return small
+
+    whole = dict(case)
+    whole.pop('ncls', None)
+    got_order = _para_ids(c.all_files_paragraphs())
+    if got_order != tags:
+        ctx.violation('files-paragraph-order-differs-from-documented-insertion', 'Files paragraphs added in order %r are listed '
+                      'as %r' % (tags, got_order), whole)
+        return
+
+    def stage(label, doc, fps_, lists_, earlier_, mon):
+        """True => nothing recorded at this stage."""
+        mark = _viol_mark(ctx)
+        differs, extra, what = long_files_check(ctx, label, fps_, lists_, rr)
+        nm = names + [x for x in extra if x not in names]
+        before = ctx.counters['op:matches']
+        doc_queries(ctx, case, doc, fps_, lists_, nm, earlier_, '-long-' + label, small_of=small_of, mon=mon, cnt='long-find')
+        ctx.evaluations += len(nm)
+        ctx.count('long:matches-observed/%s' % label, ctx.counters['op:matches'] - before)
+        suffix = '/long-pattern-list-%s' % label
+        if differs:
+            suffix += '/files-differs-from-the-list-given'
+        n = _viol_retag(ctx, mark, suffix)
+        if n:
+            if differs:
+                ctx.violations[-1]['msg'] = (ctx.violations[-1]['msg'] + ' || ' + what)[:2000]
+            return False
+        if differs:
+            # no name of the workload tells the stored list from the given one: nothing this property talks about changed
+            ctx.count('long:note:files-differs-from-the-list-given-without-observed-effect/%s' % label)
+            ctx.extra.setdefault('long_notes', [])
+            if len(ctx.extra['long_notes']) < 3:
+                ctx.extra['long_notes'].append(what[:600])
+        return True
+
+    if not stage('built-through-api', c, fps, lists, earlier, 'M.long.find'):
+        return
+    if not any(not gl.legal for gl in lists):
+        for name in names:
+            hits = [k for k, gl in enumerate(lists) if gl.matches(name)]
+            if hits and len(' '.join(lists[hits[-1]].patterns)) >= 89:
+                ctx.count('long-find:resolves-to-paragraph-with-list-beyond-one-text-line')
+                if len(hits) >= 2:
+                    ctx.count('long-find:last-of-several-matching-is-a-long-list')
+    if case.get('reassign'):
+        k, newp = case['reassign']
+        if k < len(fps):
+            old = lists[k]
+            fps[k].files = list(newp)
+            lists = list(lists)
+            lists[k] = G.GlobList(newp)
+            lists[k].cheap = True
+            earlier = dict(earlier)
+            earlier[k] = [old] + list(earlier.get(k, ()))
+            ctx.count('op:files-assign')
+            ctx.count('long:re-assigned-lists')
+            if old.legal and lists[k].legal:
+                for name in names:
+                    if old.matches(name) != lists[k].matches(name):
+                        ctx.mon('M.stale')
+                        ctx.count('long:stale-distinguishing-name')
+            if not stage('re-assigned', c, fps, lists, earlier, 'M.long.find'):
+                return
+    # dump() -> re-parse
+    ctx.mon('M.long.reparse')
+    mode = case.get('reparse', 'parse')
+    try:
+        if case.get('dump') == 'file':
+            f = io.StringIO()
+            c.dump(f)
+            text = f.getvalue()
+        else:
+            text = c.dump()
+        body = text.split('\n')
+        if body and body[-1] == '':
+            body.pop()
+        c2 = parse_doc(ctx, body, mode, strict)
+        fps2 = list(c2.all_files_paragraphs())
+        ids2 = _para_ids(fps2)
+    except Exception as e:
+        ctx.violation('dump-of-built-document-does-not-reparse/long-pattern-list', 'dump() then Copyright(...) (source %s%s) raised '
+                      '%s: %s' % (mode, '' if strict else ', strict=False', type(e).__name__, e), whole)
+        return
+    ctx.count('long:reparse-source:%s' % mode)
+    ctx.count('long:reparse-%s' % ('strict' if strict else 'strict=False'))
+    if ids2 != tags:
+        ctx.violation('dumped-document-has-different-files-paragraphs/long-pattern-list', 'dump() then parse shows Files paragraphs '
+                      '%r; the live document has %r' % (ids2, tags), whole)
+        return
+    stage('after-dump-and-reparse', c2, fps2, lists, {}, 'M.long.reparse.find')
+
+
 def _show(res):
     if res[0] != 'value':
         return res[0]
@@ -1573,6 +2140,8 @@ def run_case(ctx, case):
         run_raw(ctx, case)
     elif kind == 'build':
         run_build(ctx, case)
+    elif kind == 'long':
+        run_long(ctx, case)
     else:
         raise ValueError('unknown case kind %r' % kind)
 
